@@ -105,7 +105,8 @@ func (s *svDesc) coqVal() string {
 	case "tsv":
 		return "(STsv " + coqZu(s.At) + " " + s.In.coqVal() + ")"
 	}
-	panic("coqVal of " + s.T)
+	// a nil value cannot be written as an sval; callers report such results as malformed (see malformedValue)
+	return "(SDec (mkd false 0 0))"
 }
 
 // Gallina term of type option sval
@@ -223,4 +224,19 @@ func genWild(r *rand.Rand, depth int) *svDesc {
 		}
 		return &svDesc{T: "tsv", At: at, In: in}
 	}
+}
+
+// a decoded value that cannot be represented as an `sval` (nil nested value): decoders must never produce one
+func malformedValue(v llo.StreamValue) bool {
+	switch x := v.(type) {
+	case *llo.TimestampedStreamValue:
+		if x == nil {
+			return false
+		}
+		if x.StreamValue == nil {
+			return true
+		}
+		return malformedValue(x.StreamValue)
+	}
+	return false
 }
